@@ -67,7 +67,14 @@ def cell_cases(draw, cell):
     # lhs
     if group == "S":
         lhs = ["var", env["scalars"][0]["name"]] if lk == "Variable" else ["bin", draw(st.sampled_from(["+", "*", "-"])), g.S(1), g.var_leaf()]
-        if lk == "scalar-expr" and draw(st.integers(0, 2)) == 0:
+        if lk == "scalar-expr" and draw(st.integers(0, 5)) == 0:
+            # a scaled bilinear term c*x*y (its gradient row is c times a PERMUTATION of the variables)
+            a_, b_ = env["scalars"][0]["name"], env["scalars"][1]["name"]
+            cval = draw(st.sampled_from([3, 2, -2, 0.5]))
+            cst = ["const", draw(st.sampled_from(["pyint", "pyfloat"])) if float(cval) == int(cval) else "pyfloat", cval]
+            lhs = draw(st.sampled_from([["bin", "*", ["bin", "*", cst, ["var", a_]], ["var", b_]], ["bin", "*", cst, ["bin", "*", ["var", b_], ["var", a_]]],
+                                        ["bin", "*", ["bin", "*", ["var", a_], ["var", b_]], cst]]))
+        elif lk == "scalar-expr" and draw(st.integers(0, 2)) == 0:
             # a Parameter as coefficient: p*x + y (its Jacobian row is [p, 1]: variable-free but not constant)
             lhs = ["bin", "+", ["bin", "*", ["param", "p"], g.var_leaf()], g.var_leaf()]
         elif lk == "scalar-expr" and draw(st.integers(0, 2)) == 0:
@@ -127,7 +134,7 @@ def cell_cases(draw, cell):
     pts = draw(gen.points(all_var_names(env), k=3))
     tol = draw(st.sampled_from([1e-8, 1e-3, 0.5]))
     return {"env": env, "cell": cell, "lhs": lhs, "rhs": rhs, "points": pts, "tol": tol, "deep_algorithms": draw(st.integers(0, 3)) == 0,
-            "newp": draw(st.sampled_from([3.0, -2.0, 0.25]))}
+            "newp": draw(st.sampled_from([3.0, -2.0, 0.25])), "scope": draw(st.sampled_from(["all", "all", "mentioned", "grow", "grow"]))}
 
 
 def strategy(tier, cell):
@@ -255,12 +262,36 @@ def check(case):
         # ---- what the solver receives
         objs = b.var_objects()
         allv = all_var_names(env)
+        # which variables the problem has: all declared ones / only those the constraint mentions / first only those, then - after
+        # a first solve - a further constraint brings in the remaining ones (the variable list grows, columns shift)
+        scope = case.get("scope", "all")
+        def _names(u):
+            if isinstance(u, (set, frozenset)):
+                return set(u)
+            out_ = set()
+            for it in (u if isinstance(u, (list, tuple)) or hasattr(u, "__iter__") and not isinstance(u, str) else []):
+                out_ |= _names(it)
+            return out_
+        try:
+            mentioned = _names(gen.used_vars(case["lhs"], env))
+            if case["rhs"][0] in ("S", "V", "M"):
+                mentioned |= _names(gen.used_vars(case["rhs"][1], env))
+            mentioned &= set(allv)
+        except Exception:
+            mentioned = set()
+        if not mentioned or scope == "all":
+            scope = "all"
+            objvars = list(allv)
+        else:
+            objvars = [nm for nm in allv if nm in mentioned]
+        classes.append("scope:" + scope)
         obj = None
-        for nm in allv:
+        for nm in objvars:
             t = objs[nm] * objs[nm]
             obj = t if obj is None else obj + t
         P = Problem().minimize(obj)
         P.subject_to(con)
+        allv = objvars
         # further constraints of both inequality senses after it: a sign or closure shared between constraints shows
         first = objs[allv[0]]
         if case["tol"] == 1e-8:
@@ -277,6 +308,20 @@ def check(case):
             return Result.violation(f"solve-setup-raises:{exc_label(ex)}", f"{desc}: {ex!r}", classes)
         if not cap.calls:
             return Result.violation("solver-not-called", desc, classes)
+        if scope == "grow":
+            rest = [nm for nm in all_var_names(env) if nm not in set(objvars)]
+            if rest:
+                for nm in rest:
+                    P.subject_to(objs[nm] >= -100.0)
+                    n_extra += 1
+                try:
+                    with seams.minimize_capture() as cap:
+                        P.solve(method="SLSQP", maxiter=1)
+                except Exception as ex:
+                    return Result.violation(f"solve-setup-raises:{exc_label(ex)}", f"{desc} (after further constraints over new variables): {ex!r}", classes)
+                if not cap.calls:
+                    return Result.violation("solver-not-called", desc, classes)
+                classes.append("grown-after-first-solve")
         dicts = list(cap.calls[0].get("constraints") or ())
         if len(dicts) != n_el + n_extra:
             return Result.violation("solver-constraint-count", f"{desc}: {len(dicts)} dicts for {n_el}+{n_extra} constraints", classes)
